@@ -78,7 +78,7 @@ func startServer(c *vf.Ctx, worker int) (*proc.Server, error) {
 // ---- case generation: a fixed function of (seed, tier)
 
 func generate(c *vf.Ctx) []*Batch {
-	nPure := c.Pick(34, 180)
+	nPure := c.Pick(34, 270)
 	pureLines := c.Pick(50, 200)
 	nMixed := c.Pick(20, 200)
 	mixedValid := c.Pick(35, 120)
@@ -465,7 +465,7 @@ func (r *runner) evaluate(b *Batch, only map[string]bool, reqLevel bool) *verdic
 			}
 		}
 		if qerr[b.Meas] != nil || broken {
-			v.counts["inconclusive:query-error"]++
+			v.counts["lines-in-unreadable-measurement"]++
 			continue
 		}
 		got := present[ln.ID]
@@ -542,6 +542,22 @@ func (r *runner) evaluate(b *Batch, only map[string]bool, reqLevel bool) *verdic
 			}
 			v.counts[ln.Kind+"-stored-equal:"+ln.Why]++
 			v.okLines = append(v.okLines, ln)
+		}
+	}
+	if only == nil {
+		// a measurement that cannot be queried at all: what was accepted into it is not returned
+		for m, err := range qerr {
+			cls := "other"
+			switch {
+			case strings.Contains(err.Error(), "unsupported value"):
+				cls = "json-unsupported-value"
+			case strings.Contains(err.Error(), "undecodable body"):
+				cls = "undecodable-response"
+			case strings.Contains(err.Error(), "Client.Timeout") || strings.Contains(err.Error(), "connection refused") || strings.Contains(err.Error(), "connection reset"):
+				v.counts["inconclusive:query-transport-error"]++
+				continue
+			}
+			v.findings = append(v.findings, finding{"query-failed:" + cls, fmt.Sprintf("SELECT * FROM %s GROUP BY * fails after request %d (status %d) was written: %.300s", quoteIdent(m), b.N, b.Status, err.Error()), &b.Lines[0]})
 		}
 	}
 	if only == nil && reqLevel {
